@@ -4,7 +4,7 @@
    query / run answers on the DB they leave. *)
 From Coq Require Import ZifyBool Relations.
 From DoitV Require Import Base Status History StatusP HistoryP Commands.
-From DoitV Require Dispatch Runner.
+From DoitV Require Dispatch Runner DispatchP.
 Open Scope Z_scope.
 
 (* ---------- the table ---------- *)
@@ -111,8 +111,8 @@ Proof.
     destruct (named_with_subs tb l) as [l'|] eqn:El; [|discriminate].
     destruct (IH l' eq_refl) as [IH1 IH2]. inversion H; subst. split.
     + intros x. simpl. rewrite in_app_iff, IH1, (subtasks_of_spec _ _ _ _ Es). split.
-      * intros [<-|[[H1 H2]|(m & H1 & H2)]].
-        -- exists x. split; auto. left. reflexivity.
+      * intros [E|[[H1 H2]|(m & H1 & H2)]].
+        -- exists n. split; auto. left. auto.
         -- exists n. split; auto. right. exists c. auto.
         -- exists m. auto.
       * intros (m & [<-|Hm] & [->|(c' & H1 & H2 & H3)]); auto.
@@ -192,3 +192,1237 @@ Qed.
 
 Lemma status_is_ignore_none d t : d t = None -> status_is_ignore d t = false.
 Proof. intros H. unfold status_is_ignore, getrec. rewrite H. reflexivity. Qed.
+
+(* ---------- tasks_and_deps_iter ---------- *)
+(* m is named in task_dep or setup of the task n *)
+Definition succ (tb : table) (n m : name) : Prop :=
+  exists c, lookup tb n = Some c /\ In m (c_task_dep c ++ c_setup c).
+(* x is one of sel or reachable from one through task_dep / setup edges *)
+Definition reach_from (tb : table) (sel : list name) (x : name) : Prop :=
+  exists s, In s sel /\ clos_refl_trans name (succ tb) s x.
+
+Lemma deps_loop_spec tb dup deps : forall P tp out tp' out',
+  deps_loop tb dup deps P tp out = Some (tp', out') ->
+  incl tp tp' /\ incl out out' /\
+  (forall y, In y tp' -> In y tp \/ In y deps) /\
+  (forall y, In y out' -> In y out \/ In y deps) /\
+  (forall y, In y deps -> In y P \/ In y tp').
+Proof.
+  induction deps as [|d r IH]; intros P tp out tp' out' H; simpl in H.
+  - inversion H; subst. repeat split; auto using incl_refl. intros y [].
+  - destruct (negb (mem d P) && negb (mem d tp)) eqn:Ec.
+    + destruct (IH _ _ _ _ _ H) as (A & B & C & D & E).
+      split; [intros y Hy; apply A, in_or_app; auto|]. split; [exact B|].
+      split; [intros y Hy; destruct (C y Hy) as [Hy'|Hy']; [apply in_app_or in Hy'; destruct Hy' as [Hy'|[<-|[]]]; simpl; auto | simpl; auto]|].
+      split; [intros y Hy; destruct (D y Hy); simpl; auto|].
+      intros y [<-|Hy]; [right; apply A, in_or_app; simpl; auto | apply E; auto].
+    + assert (Hd : In d P \/ In d tp).
+      { apply andb_false_iff in Ec. destruct Ec as [Ec|Ec]; apply negb_false_iff, mem_In in Ec; auto. }
+      destruct dup.
+      * destruct (lookup tb d); [|discriminate].
+        destruct (IH _ _ _ _ _ H) as (A & B & C & D & E).
+        split; [exact A|]. split; [intros y Hy; apply B, in_or_app; auto|].
+        split; [intros y Hy; destruct (C y Hy); simpl; auto|].
+        split; [intros y Hy; destruct (D y Hy) as [Hy'|Hy']; [apply in_app_or in Hy'; destruct Hy' as [Hy'|[<-|[]]]; simpl; auto | simpl; auto]|].
+        intros y [<-|Hy]; [destruct Hd; auto | apply E; auto].
+      * destruct (IH _ _ _ _ _ H) as (A & B & C & D & E).
+        split; [exact A|]. split; [exact B|].
+        split; [intros y Hy; destruct (C y Hy); simpl; auto|].
+        split; [intros y Hy; destruct (D y Hy); simpl; auto|].
+        intros y [<-|Hy]; [destruct Hd; auto | apply E; auto].
+Qed.
+
+Lemma reach_step tb sel x m : reach_from tb sel x -> succ tb x m -> reach_from tb sel m.
+Proof.
+  intros (s & Hs & Hr) Hm. exists s. split; auto. eapply rt_trans; [exact Hr|]. apply rt_step. exact Hm.
+Qed.
+
+Lemma closed_reach tb (P : list name) :
+  (forall x, In x P -> forall m, succ tb x m -> In m P) ->
+  forall a b, clos_refl_trans name (succ tb) a b -> In a P -> In b P.
+Proof. intros Hc a b H. induction H; eauto. Qed.
+
+Lemma tdi_spec tb dup sel : forall fuel P tp out l,
+  tdi fuel tb dup P tp out = IOk l ->
+  (forall x, In x P \/ In x tp \/ In x out -> reach_from tb sel x) ->
+  (forall x, In x P -> In x out) ->
+  (forall x, In x P -> forall m, succ tb x m -> In m P \/ In m tp) ->
+  (forall x, In x sel -> In x P \/ In x tp) ->
+  forall x, In x l <-> reach_from tb sel x.
+Proof.
+  assert (FIN : forall P out, (forall x, In x P \/ In x [] \/ In x out -> reach_from tb sel x) ->
+           (forall x, In x P -> In x out) -> (forall x, In x P -> forall m, succ tb x m -> In m P \/ In m []) ->
+           (forall x, In x sel -> In x P \/ In x []) -> forall x, In x out <-> reach_from tb sel x).
+  { intros P out I1 I2 I3 I4 x. split; [intros Hx; apply I1; auto|].
+    intros (s & Hs & Hr). apply I2. apply (closed_reach tb P) with (a := s); auto.
+    - intros y Hy m Hm. destruct (I3 y Hy m Hm) as [H|[]]; auto.
+    - destruct (I4 s Hs) as [H|[]]; auto. }
+  induction fuel as [|fuel IH]; intros P tp out l H I1 I2 I3 I4; destruct tp as [|x rest]; simpl in H;
+    try (inversion H; subst; eapply FIN; eauto; fail); try discriminate.
+  destruct (lookup tb x) as [c|] eqn:Ex; [|discriminate].
+  destruct (deps_loop tb dup (c_task_dep c ++ c_setup c) (x :: P) rest (out ++ [x])) as [[tp' out']|] eqn:Ed; [|discriminate].
+  destruct (deps_loop_spec _ _ _ _ _ _ _ _ Ed) as (A & B & C & D & E).
+  assert (Rx : reach_from tb sel x) by (apply I1; right; left; left; reflexivity).
+  assert (Rd : forall y, In y (c_task_dep c ++ c_setup c) -> reach_from tb sel y).
+  { intros y Hy. apply (reach_step tb sel x); auto. exists c. auto. }
+  apply (IH _ _ _ _ H).
+  - intros y [[<-|Hy]|[Hy|Hy]]; auto.
+    + destruct (C y Hy) as [Hy'|Hy']; auto. apply I1. right. left. right. exact Hy'.
+    + destruct (D y Hy) as [Hy'|Hy']; auto. apply in_app_or in Hy'. destruct Hy' as [Hy'|[<-|[]]]; auto.
+  - intros y [<-|Hy]; apply B, in_or_app; simpl; auto.
+  - intros y [<-|Hy] m Hm.
+    + destruct Hm as (c' & Hc' & Hm). rewrite Ex in Hc'. inversion Hc'; subst c'. apply E. exact Hm.
+    + destruct (I3 y Hy m Hm) as [H1|[<-|H1]]; simpl; auto.
+  - intros s Hs. destruct (I4 s Hs) as [H1|[<-|H1]]; simpl; auto.
+Qed.
+
+(* what `tasks_and_deps_iter(tasks, sel, yield_duplicates)` yields: exactly the tasks reachable from sel *)
+Lemma tasks_and_deps_iter_spec tb sel dup l :
+  tasks_and_deps_iter tb sel dup = IOk l -> forall x, In x l <-> reach_from tb sel x.
+Proof.
+  intros H. apply (tdi_spec tb dup sel _ _ _ _ _ H).
+  - intros x [[]|[Hx|[]]]. exists x. split; auto. apply rt_refl.
+  - intros x [].
+  - intros x [].
+  - auto.
+Qed.
+
+(* ---- the fuel is enough ---- *)
+Definition universe (tb : table) : list name := nodup N.eq_dec (names tb).
+Definition unseen (tb : table) (P tp : list name) : list name :=
+  filter (fun n => negb (mem n P) && negb (mem n tp)) (universe tb).
+
+Lemma nodup_length (l : list name) : (length (nodup N.eq_dec l) <= length l)%nat.
+Proof. induction l as [|x l IH]; simpl; auto. destruct (in_dec N.eq_dec x l); simpl; lia. Qed.
+
+Lemma filter_length_le {A} (p : A -> bool) l : (length (filter p l) <= length l)%nat.
+Proof. induction l as [|x l IH]; simpl; auto. destruct (p x); simpl; lia. Qed.
+
+Lemma filter_drop_one (p : name -> bool) d L :
+  NoDup L -> In d L -> p d = true ->
+  S (length (filter (fun n => p n && negb (N.eqb n d)) L)) = length (filter p L).
+Proof.
+  induction L as [|y L IH]; intros Hn Hi Hp; [destruct Hi|].
+  inversion Hn as [|? ? Hy Hn']; subst. simpl. destruct Hi as [->|Hi].
+  - rewrite Hp, N.eqb_refl. simpl. f_equal.
+    assert (E : forall M, ~ In d M -> filter (fun n => p n && negb (N.eqb n d)) M = filter p M).
+    { clear. induction M as [|z M IH]; intros H; simpl; auto.
+      assert (z <> d) by (intros ->; apply H; left; reflexivity).
+      apply N.eqb_neq in H0. rewrite H0, andb_true_r. rewrite IH; auto. intros H'. apply H. right. exact H'. }
+    rewrite E; auto.
+  - assert (Hyd : y <> d) by (intros ->; contradiction).
+    apply N.eqb_neq in Hyd. rewrite Hyd, andb_true_r. destruct (p y); simpl; rewrite <- (IH Hn' Hi Hp); reflexivity.
+Qed.
+
+Lemma mem_app x a b : mem x (a ++ b) = mem x a || mem x b.
+Proof. unfold mem. apply existsb_app. Qed.
+
+Lemma known_universe tb d : known tb d -> In d (universe tb).
+Proof.
+  unfold known, universe. intros H. apply nodup_In.
+  destruct (in_dec N.eq_dec d (names tb)) as [Hi|Hi]; auto. apply lookup_none in Hi. contradiction.
+Qed.
+
+Lemma deps_loop_total tb dup deps : forall P tp out,
+  (forall d, In d deps -> known tb d) ->
+  exists tp' out', deps_loop tb dup deps P tp out = Some (tp', out') /\
+    (length tp' + length (unseen tb P tp') <= length tp + length (unseen tb P tp))%nat.
+Proof.
+  induction deps as [|d r IH]; intros P tp out Hk; simpl.
+  - eauto.
+  - assert (Hkr : forall d', In d' r -> known tb d') by (intros; apply Hk; simpl; auto).
+    destruct (negb (mem d P) && negb (mem d tp)) eqn:Ec.
+    + destruct (IH P (tp ++ [d]) out Hkr) as (tp' & out' & E & M). exists tp', out'. split; auto.
+      assert (U : S (length (unseen tb P (tp ++ [d]))) = length (unseen tb P tp)).
+      { unfold unseen.
+        rewrite (filter_ext _ (fun n => (negb (mem n P) && negb (mem n tp)) && negb (N.eqb n d))).
+        - apply filter_drop_one; auto.
+          + apply NoDup_nodup.
+          + apply known_universe. apply Hk. simpl. auto.
+        - intros n. rewrite mem_app. simpl. rewrite orb_false_r, negb_orb, andb_assoc. reflexivity. }
+      rewrite app_length in M. simpl in M. lia.
+    + destruct dup.
+      * assert (Hd : known tb d) by (apply Hk; simpl; auto). unfold known in Hd.
+        destruct (lookup tb d); [|contradiction]. apply IH; auto.
+      * apply IH; auto.
+Qed.
+
+Lemma tdi_total tb dup : closed tb -> forall fuel P tp out,
+  (forall x, In x tp -> known tb x) ->
+  (length tp + length (unseen tb P tp) < fuel)%nat ->
+  exists l, tdi fuel tb dup P tp out = IOk l.
+Proof.
+  intros Hc. induction fuel as [|fuel IH]; intros P tp out Hk Hm; [lia|].
+  destruct tp as [|x rest]; simpl; [eauto|].
+  assert (Hx : known tb x) by (apply Hk; simpl; auto). unfold known in Hx.
+  destruct (lookup tb x) as [c|] eqn:Ex; [|contradiction].
+  destruct (deps_loop_total tb dup (c_task_dep c ++ c_setup c) (x :: P) rest (out ++ [x])) as (tp' & out' & Ed & M).
+  { intros d Hd. apply (Hc x c Ex d Hd). }
+  rewrite Ed. apply IH.
+  - intros y Hy. destruct (deps_loop_spec _ _ _ _ _ _ _ _ Ed) as (_ & _ & C & _).
+    destruct (C y Hy) as [H|H]; [apply Hk; simpl; auto | apply (Hc x c Ex y H)].
+  - assert (E : unseen tb (x :: P) rest = unseen tb P (x :: rest)).
+    { unfold unseen. apply filter_ext. intros n. simpl. destruct (N.eqb n x), (mem n P), (mem n rest); reflexivity. }
+    rewrite E in M. simpl in Hm. lia.
+Qed.
+
+Lemma tasks_and_deps_iter_total tb sel dup :
+  closed tb -> (forall x, In x sel -> known tb x) -> exists l, tasks_and_deps_iter tb sel dup = IOk l.
+Proof.
+  intros Hc Hk. unfold tasks_and_deps_iter, tdi_fuel. apply tdi_total; auto.
+  assert (length (unseen tb [] sel) <= length tb)%nat.
+  { unfold unseen, universe. eapply Nat.le_trans; [apply filter_length_le|].
+    eapply Nat.le_trans; [apply nodup_length|]. unfold names. rewrite map_length. lia. }
+  lia.
+Qed.
+
+(* ---------- forget ---------- *)
+Lemma log_names (l : list name) : map fst (map (fun n => (n, 0)) l) = l.
+Proof. rewrite map_map. simpl. apply map_id. Qed.
+
+Lemma top_level_spec tb x :
+  In x (top_level tb) <-> exists c, In (x, c) tb /\ c_subtask_of c = None.
+Proof.
+  unfold top_level. rewrite in_map_iff. split.
+  - intros ([k c] & <- & H). apply filter_In in H. destruct H as [H1 H2]. simpl in *.
+    exists c. split; auto. destruct (c_subtask_of c); [discriminate | reflexivity].
+  - intros (c & H1 & H2). exists (x, c). split; auto. apply filter_In. split; auto. simpl. rewrite H2. reflexivity.
+Qed.
+
+Lemma top_level_known tb x : In x (top_level tb) -> known tb x.
+Proof.
+  intros H. apply top_level_spec in H. destruct H as (c & H & _). unfold known. intros E.
+  apply lookup_none in E. apply E. apply (in_map fst) in H. exact H.
+Qed.
+
+(* the tasks `forget` is documented to act on (not --all, not the refusal of --disable-default):
+   each task of the list (named on the command line; else default_tasks; else every task that is
+   not a sub-task) with its sub-tasks; under --follow-sub everything reachable through task_dep /
+   setup (sub-tasks are task_dep of their group) *)
+Definition forget_set (tb : table) (args : list name) (dflt : option (list name)) (sub : bool) (x : name) : Prop :=
+  if sub then reach_from tb (forget_list tb args dflt) x
+  else exists n, In n (forget_list tb args dflt) /\ self_or_sub tb n x.
+
+Lemma to_forget_spec tb sub fl l :
+  to_forget tb sub fl = IOk l ->
+  forall x, In x l <-> (if sub then reach_from tb fl x else exists n, In n fl /\ self_or_sub tb n x).
+Proof.
+  unfold to_forget. destruct sub.
+  - apply tasks_and_deps_iter_spec.
+  - destruct (named_with_subs tb fl) as [r|] eqn:E; [|discriminate]. intros H. inversion H; subst.
+    apply (named_with_subs_spec _ _ _ E).
+Qed.
+
+Lemma to_forget_total tb sub fl :
+  closed tb -> (forall n, In n fl -> known tb n) -> exists l, to_forget tb sub fl = IOk l.
+Proof.
+  intros Hc Hk. unfold to_forget. destruct sub.
+  - apply tasks_and_deps_iter_total; auto.
+  - destruct (named_with_subs_total tb fl Hc Hk) as [r ->]. eauto.
+Qed.
+
+Lemma forget_exact fixF tb args dflt o d :
+  let out := forget_v fixF tb args dflt o d in
+  match co_res out with
+  | COk => if fo_all o then forall x, co_db out x = None
+           else (forall x, In x (map fst (co_log out)) <-> forget_set tb args dflt (fo_sub o) x) /\
+                (forall x, In x (map fst (co_log out)) -> co_db out x = None) /\
+                (forall x, ~ In x (map fst (co_log out)) -> co_db out x = d x)
+  | _ => co_db out = d
+  end.
+Proof.
+  unfold forget_v. destruct (fo_all o) eqn:Ea; simpl; [reflexivity|].
+  destruct (sel_default_tasks args && fo_disable_default o); simpl; [reflexivity|].
+  destruct (check_tasks_exist tb (sel_tasks args dflt)); simpl; [reflexivity|].
+  destruct (negb fixF && match sel_tasks args dflt with None => true | Some _ => false end); simpl; [reflexivity|].
+  destruct (to_forget tb (fo_sub o) (forget_list tb args dflt)) as [l| |] eqn:E; simpl; try reflexivity.
+  rewrite log_names. split; [|split].
+  - apply (to_forget_spec _ _ _ _ E).
+  - intros x Hx. apply remove_list_in. exact Hx.
+  - intros x Hx. apply remove_list_out. exact Hx.
+Qed.
+
+(* which outcome, exactly *)
+Lemma forget_outcome tb args dflt o d :
+  let out := forget tb args dflt o d in
+  if fo_all o then co_res out = COk
+  else if is_nil args && fo_disable_default o then co_res out = CNoTask
+  else match check_tasks_exist tb (sel_tasks args dflt) with
+       | Some bad => co_res out = CInvalid bad
+       | None => closed tb -> co_res out = COk
+       end.
+Proof.
+  unfold forget, forget_v, sel_default_tasks. destruct (fo_all o); simpl; [reflexivity|].
+  destruct (is_nil args && fo_disable_default o); simpl; [reflexivity|].
+  destruct (check_tasks_exist tb (sel_tasks args dflt)) eqn:Ec; simpl; [reflexivity|].
+  intros Hc.
+  destruct (to_forget_total tb (fo_sub o) (forget_list tb args dflt) Hc) as [l ->]; [|reflexivity].
+  unfold forget_list. unfold check_tasks_exist in Ec.
+  destruct (sel_tasks args dflt) as [sel|].
+  - apply first_unknown_none. exact Ec.
+  - intros n. apply top_level_known.
+Qed.
+
+(* after forget: a task without record.  get_status answers up-to-date for it exactly in the
+   documented corner: nothing to compare (no file_dep) and items that hold without saved values *)
+Section AfterForget.
+Variable md5 : N -> N.
+
+Lemma getrec_none_empty d t : d t = None -> getrec d t = empty_rec.
+Proof. apply getrec_none. Qed.
+
+Lemma forgotten_uptodate_iff v c fs d t df :
+  d t = None ->
+  (g_status (get_status md5 v c fs d t df false) = UpToDate <->
+   file_dep df = [] /\ items_ok d t df /\ some_dep d t df /\ targets_ok fs df).
+Proof.
+  intros Hn. rewrite get_status_uptodate_iff, (getrec_none _ _ Hn).
+  assert (F : Forall (fun f => file_verdict md5 c fs empty_rec f = FSame) (file_dep df) <-> file_dep df = []).
+  { split.
+    - destruct (file_dep df) as [|f r]; auto. intros H. inversion H as [|? ? H1 _]; subst.
+      unfold file_verdict in H1. simpl in H1. destruct (fs f); discriminate.
+    - intros ->. constructor. }
+  rewrite F. unfold ck_changed, deps_changed. simpl. tauto.
+Qed.
+
+Lemma forgotten_runs v c fs d t df :
+  d t = None -> file_dep df <> [] -> (forall f, In f (file_dep df) -> exists_ fs f = true) ->
+  g_status (get_status md5 v c fs d t df false) = Run.
+Proof.
+  intros Hn Hf He.
+  destruct (g_status (get_status md5 v c fs d t df false)) eqn:E; auto.
+  - apply forgotten_uptodate_iff in E; auto. destruct E as [E _]. contradiction.
+  - apply get_status_error in E. destruct E as (f & Hi & Hm). specialize (He f Hi). unfold exists_ in He. rewrite Hm in He. discriminate.
+  - exfalso. revert E. apply get_status_no_crash. rewrite (getrec_none _ _ Hn). unfold rec_typed. simpl. auto.
+Qed.
+
+End AfterForget.
+
+(* ---------- ignore ---------- *)
+Lemma ignore_exact tb args d :
+  let out := ignore_cmd tb args d in
+  match co_res out with
+  | COk => (forall x, In x (map fst (co_log out)) <-> exists n, In n args /\ self_or_sub tb n x) /\
+           (forall x, In x (map fst (co_log out)) -> co_db out x = Some (set_ignore (getrec d x) true)) /\
+           (forall x, ~ In x (map fst (co_log out)) -> co_db out x = d x)
+  | _ => co_db out = d
+  end.
+Proof.
+  cbv zeta. unfold ignore_cmd. destruct args as [|a args]; [reflexivity|].
+  set (l0 := a :: args).
+  destruct (first_unknown tb l0); [reflexivity|].
+  unfold to_ignore. destruct (named_with_subs tb l0) as [l|] eqn:E; [|reflexivity].
+  cbn [co_res co_log co_db].
+  rewrite log_names. split; [|split].
+  - apply (named_with_subs_spec _ _ _ E).
+  - intros x Hx. apply ignore_list_in. exact Hx.
+  - intros x Hx. apply ignore_list_out. exact Hx.
+Qed.
+
+Lemma ignore_outcome tb args d :
+  let out := ignore_cmd tb args d in
+  match args with
+  | [] => co_res out = CNoTask
+  | _ => match first_unknown tb args with
+         | Some bad => co_res out = CInvalid bad
+         | None => closed tb -> co_res out = COk
+         end
+  end.
+Proof.
+  unfold ignore_cmd. destruct args as [|a args]; [reflexivity|].
+  destruct (first_unknown tb (a :: args)) eqn:Ec; [reflexivity|].
+  intros Hc. unfold to_ignore.
+  destruct (named_with_subs_total tb (a :: args) Hc) as [r ->]; [|reflexivity].
+  apply first_unknown_none. exact Ec.
+Qed.
+
+(* what the mark means for the record *)
+Lemma set_ignore_fields r :
+  r_ignore (set_ignore r true) = true /\ r_deps (set_ignore r true) = r_deps r /\
+  r_checker (set_ignore r true) = r_checker r /\ r_saved (set_ignore r true) = r_saved r /\
+  r_values (set_ignore r true) = r_values r /\ r_result (set_ignore r true) = r_result r.
+Proof. repeat split. Qed.
+
+(* ---- "until forgotten", on the histories of History.v: whatever runs follow (any tasks, with or
+   without --always, actions failing or not), the mark stays and the task is never executed ---- *)
+Section IgnorePersists.
+Variable md5 : N -> N.
+Variable size_of : N -> Z.
+Variable v : ver.
+
+Lemma run_task_ops_on_any s t a f : Forall (op_on t) (run_task_ops md5 v s t a f).
+Proof.
+  unfold run_task_ops. destruct (status_is_ignore (s_db s) t); [constructor|].
+  constructor; [left; reflexivity|].
+  destruct (g_status (History.check md5 v s t)); destruct a; destruct f;
+    repeat (constructor; [unfold op_on; auto|]); constructor.
+Qed.
+
+Definition runs (s : state) (l : list (name * bool * bool)) : state :=
+  fold_left (fun s x => run_task md5 size_of v s (fst (fst x)) (snd (fst x)) (snd x)) l s.
+
+Lemma run_task_keeps_ignored s T t a f :
+  status_is_ignore (s_db s) T = true -> s_db (run_task md5 size_of v s t a f) T = s_db s T.
+Proof.
+  intros Hi. unfold run_task. destruct (N.eq_dec t T) as [->|Hne].
+  - unfold run_task_ops. rewrite Hi. reflexivity.
+  - destruct (run_from_on md5 size_of v t _ s (run_task_ops_on_any s t a f)) as [_ Hfr].
+    apply Hfr. auto.
+Qed.
+
+Lemma runs_keep_ignored l : forall s T,
+  status_is_ignore (s_db s) T = true -> s_db (runs s l) T = s_db s T.
+Proof.
+  unfold runs. induction l as [|x l IH]; intros s T Hi; simpl; auto.
+  pose proof (run_task_keeps_ignored s T (fst (fst x)) (snd (fst x)) (snd x) Hi) as E.
+  rewrite IH.
+  - exact E.
+  - unfold status_is_ignore, getrec in *. rewrite E. exact Hi.
+Qed.
+
+Lemma ignored_not_executed s T a : status_is_ignore (s_db s) T = true -> executes md5 v s T a = false.
+Proof. intros H. unfold executes. rewrite H. reflexivity. Qed.
+
+End IgnorePersists.
+
+(* ---------- reset-dep ---------- *)
+Lemma save_files_fields md5 c fs deps : forall r r' o,
+  save_files md5 c fs r deps = (r', o) ->
+  r_result r' = r_result r /\ r_ignore r' = r_ignore r /\ r_values r' = r_values r.
+Proof.
+  induction deps as [|f deps IH]; intros r r' o H; simpl in H.
+  - inversion H; subst. auto.
+  - destruct (fs f) as [st|]; [|inversion H; subst; auto].
+    destruct (get_state md5 c st (r_saved r f)).
+    + apply IH in H. exact H.
+    + apply IH in H. simpl in H. exact H.
+    + inversion H; subst. auto.
+Qed.
+
+Lemma save_success_rec_fields md5 v c fs r0 deps vals res r' o :
+  save_success_rec md5 v c fs r0 deps vals res = (r', o) ->
+  r_result r' = match res with Some h => Some h | None => r_result (wipe_if_other_checker v c r0) end /\
+  r_ignore r' = r_ignore (wipe_if_other_checker v c r0).
+Proof.
+  unfold save_success_rec. intros H.
+  match type of H with context [save_files md5 c fs ?r deps] => destruct (save_files md5 c fs r deps) as [r4 o4] eqn:E4 end.
+  apply save_files_fields in E4. destruct E4 as (E1 & E2 & _).
+  destruct o4; inversion H; subst; simpl; rewrite ?E1, ?E2; destruct res; simpl; auto.
+Qed.
+
+Section ResetDep.
+Variable md5 : N -> N.
+Variable v : ver.
+Hypothesis HB : fixB v = true.
+
+(* what C03 proves of every DB an FS-fresh history reaches (HistoryP.run_inv) *)
+Definition db_ok (fs : fsys) (sn : seen_t) (d : db) : Prop :=
+  fs_seen fs sn /\ forall t, rec_truthful md5 sn (getrec d t) /\ rec_typed (getrec d t).
+
+Lemma db_ok_of_state (size_of : N -> Z) s : db_reflects_ghost md5 s -> db_ok (s_fs s) (s_seen s) (s_db s).
+Proof.
+  intros (Hb & Ht & _). split; auto. intros t. apply (task_inv_getrec md5 size_of). apply Ht.
+Qed.
+
+Lemma empty_rec_ok (sn : seen_t) : rec_truthful md5 sn empty_rec /\ rec_typed empty_rec.
+Proof. split; [intros f m sz dg H; discriminate | unfold rec_typed; simpl; auto]. Qed.
+
+Lemma getrec_upd_same d t r : getrec (upd d t (Some r)) t = r.
+Proof. unfold getrec. rewrite upd_same. reflexivity. Qed.
+Lemma getrec_upd_other (d : db) t r x : x <> t -> getrec (upd d t r) x = getrec d x.
+Proof. intros H. unfold getrec. rewrite upd_other by auto. reflexivity. Qed.
+
+Lemma good_verdict c fs r f : good md5 c fs r f -> file_verdict md5 c fs r f = FSame.
+Proof.
+  intros (st & H1 & H2). unfold file_verdict. rewrite H1, H2.
+  assert (E : check_modified md5 c st (state_of md5 c st) = Some false)
+    by (apply check_modified_state_of, unmodified_refl).
+  rewrite E. reflexivity.
+Qed.
+
+Lemma reset_dep_spec c fs sn d n df d' code :
+  db_ok fs sn d -> reset_dep md5 v c fs d n df = (d', code) ->
+  db_ok fs sn d' /\
+  (forall x, x <> n -> d' x = d x) /\
+  (forall x, get_values d' x = get_values d x /\ get_result d' x = get_result d x) /\
+  if forallb (exists_ fs) (file_dep df)
+  then (code = 1 \/ code = 2) /\
+       (code = 1 -> d' = d) /\
+       (code = 2 -> exists r', d' n = Some r' /\ r_deps r' = Some (file_dep df) /\ r_checker r' = Some c /\
+                    (forall f, In f (file_dep df) -> good md5 c fs r' f) /\
+                    r_ignore r' = (if ck_changed c (getrec d n) then false else r_ignore (getrec d n))) /\
+       (g_status (get_status md5 v c fs d' n df false) = UpToDate <->
+          items_ok d' n df /\ some_dep d' n df /\ targets_ok fs df)
+  else code = 0 /\ d' = d.
+Proof.
+  intros Hok H. unfold reset_dep in H.
+  destruct (forallb (exists_ fs) (file_dep df)) eqn:Eall; simpl in H.
+  2: { inversion H; subst. split; [exact Hok|]. split; [auto|]. split; [auto|]. auto. }
+  set (g := get_status md5 v c fs d n df false) in *.
+  assert (Hnc : g_status g <> Crash) by (apply get_status_no_crash; apply Hok).
+  destruct (g_status g) eqn:Est; try contradiction.
+  - (* skip *)
+    inversion H; subst. pose proof (get_status_uptodate_db md5 v c fs d n df Est) as Ed. fold g in Ed. rewrite Ed.
+    split; [exact Hok|]. split; [auto|]. split; [auto|]. split; [auto|]. split; [auto|].
+    split; [intros X; discriminate|].
+    pose proof (proj1 (get_status_uptodate_iff md5 v c fs d n df) Est) as U. fold g. rewrite Est. tauto.
+  - (* processed *)
+    destruct (save_success md5 v c fs (g_db g) n (file_dep df) (get_values d n) (get_result d n)) as [d1 o] eqn:Es.
+    destruct (save_success_db _ _ _ _ _ _ _ _ _ _ _ Es) as (Hfr & r' & Hr' & Hrec).
+    assert (Hg : g_db g = d \/ (ck_changed c (getrec d n) = true /\ g_db g = remove d n)) by apply get_status_db.
+    assert (Hgo : forall x, x <> n -> g_db g x = d x).
+    { intros x Hx. destruct Hg as [->|[_ ->]]; auto. apply remove_other; auto. }
+    assert (Hr0 : rec_truthful md5 sn (getrec (g_db g) n) /\ rec_typed (getrec (g_db g) n)).
+    { destruct Hg as [->|[_ ->]]; [apply Hok|]. rewrite getrec_remove. apply empty_rec_ok. }
+    destruct (save_success_rec_spec md5 v c fs sn _ _ _ _ _ _ HB (proj1 Hok) (proj1 Hr0) (proj2 Hr0) Hrec) as (T1 & T2 & T3 & T4).
+    destruct (save_success_rec_fields _ _ _ _ _ _ _ _ _ _ Hrec) as [F1 F2].
+    destruct o.
+    + inversion H; subst d1 code. destruct T4 as (T4 & T5 & T6).
+      assert (Hd'n : getrec d' n = r') by (unfold getrec; rewrite Hr'; reflexivity).
+      (* result / ignore through the wipe *)
+      assert (Hw : r_result r' = get_result d n /\
+                   r_ignore r' = (if ck_changed c (getrec d n) then false else r_ignore (getrec d n))).
+      { unfold wipe_if_other_checker in F1, F2. rewrite HB in F1, F2. unfold ck_changed. unfold get_result in *.
+        destruct Hg as [Eg|[Eck Eg]]; rewrite Eg in F1, F2.
+        - destruct (r_checker (getrec d n)) as [p|]; simpl in *.
+          + destruct (ck_eqb p c); simpl in *; split; auto; destruct (r_result (getrec d n)); auto.
+          + split; auto. destruct (r_result (getrec d n)); auto.
+        - rewrite getrec_remove in F1, F2. simpl in F1, F2. unfold ck_changed in Eck.
+          destruct (r_checker (getrec d n)) as [p|]; [|discriminate]. rewrite Eck.
+          split; auto. destruct (r_result (getrec d n)); auto. }
+      split.
+      { split; [apply Hok|]. intros t. destruct (N.eq_dec t n) as [->|Hne].
+        - rewrite Hd'n. split; auto. unfold rec_typed. rewrite T2. exact T3.
+        - unfold getrec. rewrite Hfr, Hgo by auto. apply Hok. }
+      split; [intros x Hx; rewrite Hfr, Hgo; auto|].
+      split.
+      { intros x. unfold get_values, get_result. destruct (N.eq_dec x n) as [->|Hne].
+        - rewrite Hd'n. split; [exact T5 | apply Hw].
+        - unfold getrec. rewrite Hfr, Hgo by auto. auto. }
+      split; [auto|]. split; [intros X; discriminate|].
+      split.
+      { intros _. exists r'. split; auto. split; auto. split; auto. split; auto. apply Hw. }
+      rewrite get_status_uptodate_iff, Hd'n.
+      assert (C1 : ck_changed c r' = false) by (unfold ck_changed; rewrite T2, ck_eqb_refl; reflexivity).
+      assert (C2 : deps_changed v r' df = false).
+      { apply (deps_changed_same v). intros p Hp. rewrite T4 in Hp. inversion Hp; subst. apply same_set_refl. }
+      assert (C3 : Forall (fun f => file_verdict md5 c fs r' f = FSame) (file_dep df)).
+      { apply Forall_forall. intros f Hf. apply good_verdict. auto. }
+      tauto.
+    + exfalso. destruct T4 as [T4 T5]. rewrite forallb_forall in Eall. specialize (Eall f T4).
+      unfold exists_ in Eall. rewrite T5 in Eall. discriminate.
+    + destruct T4.
+  - (* error: impossible, every file dependency exists *)
+    exfalso. apply get_status_error in Est. destruct Est as (f & Hf & Hm).
+    rewrite forallb_forall in Eall. specialize (Eall f Hf). unfold exists_ in Eall. rewrite Hm in Eall. discriminate.
+Qed.
+
+(* the verdict and the items of task n see the DB through n's record and the values / results only *)
+Lemma eval_utd_ext d d' n u :
+  (forall x, get_values d' x = get_values d x /\ get_result d' x = get_result d x) ->
+  eval_utd d' n u = eval_utd d n u.
+Proof.
+  intros H. destruct u; simpl; auto.
+  - rewrite (proj1 (H n)). reflexivity.
+  - rewrite (proj1 (H n)). reflexivity.
+  - rewrite (proj1 (H n)), (proj2 (H src)). reflexivity.
+Qed.
+
+Lemma uptodate_transfer c fs d d' n df :
+  d' n = d n -> (forall x, get_values d' x = get_values d x /\ get_result d' x = get_result d x) ->
+  (g_status (get_status md5 v c fs d' n df false) = UpToDate <-> g_status (get_status md5 v c fs d n df false) = UpToDate) /\
+  (items_ok d' n df <-> items_ok d n df) /\ (some_dep d' n df <-> some_dep d n df).
+Proof.
+  intros Hn Hv.
+  assert (E : forall u, eval_utd d' n u = eval_utd d n u) by (intros u; apply eval_utd_ext; auto).
+  split; [|split].
+  - apply get_status_uptodate_frame; [unfold getrec; rewrite Hn; reflexivity | auto].
+  - unfold items_ok. split; intros H u Hu; [rewrite <- E | rewrite E]; auto.
+  - unfold some_dep. split; (intros [H|(u & b & Hu & Hb)]; [auto | right; exists u, b; split; auto]); [rewrite <- E | rewrite E]; auto.
+Qed.
+
+(* the state a reset task is left in: up-to-date unless a target is missing or an item says no
+   (or there is nothing at all to depend on) *)
+Definition settled_after (c : ck) (fs : fsys) (d : db) (n : name) (df : tdef) : Prop :=
+  g_status (get_status md5 v c fs d n df false) = UpToDate <-> items_ok d n df /\ some_dep d n df /\ targets_ok fs df.
+
+Lemma resetdep_loop_spec c fs sn : forall l d log,
+  db_ok fs sn d ->
+  let out := resetdep_loop md5 v c fs l d log in
+  co_res out = COk /\ db_ok fs sn (co_db out) /\
+  (forall x, ~ In x (map fst l) -> co_db out x = d x) /\
+  (forall x, get_values (co_db out) x = get_values d x /\ get_result (co_db out) x = get_result d x) /\
+  (forall n df, In (n, df) l -> (forall df', In (n, df') l -> df' = df) ->
+     if forallb (exists_ fs) (file_dep df) then settled_after c fs (co_db out) n df else co_db out n = d n).
+Proof.
+  induction l as [|[m dfm] l IH]; intros d log Hok; cbv zeta; simpl.
+  - split; [reflexivity|]. split; [exact Hok|]. split; [auto|]. split; [auto|]. intros n df [].
+  - destruct (reset_dep md5 v c fs d m dfm) as [d1 code] eqn:Er.
+    destruct (reset_dep_spec c fs sn d m dfm d1 code Hok Er) as (Hok1 & Hfr1 & Hv1 & Hcase).
+    assert (Hcode : (code =? 98) = false).
+    { destruct (forallb (exists_ fs) (file_dep dfm)).
+      - destruct Hcase as ([->| ->] & _); reflexivity.
+      - destruct Hcase as [-> _]. reflexivity. }
+    rewrite Hcode.
+    destruct (IH d1 (log ++ [(m, code)]) Hok1) as (R1 & R2 & R3 & R4 & R5). cbv zeta in *.
+    set (out := resetdep_loop md5 v c fs l d1 (log ++ [(m, code)])) in *.
+    split; [exact R1|]. split; [exact R2|].
+    split.
+    { intros x Hx. rewrite R3 by (intros H; apply Hx; right; exact H). apply Hfr1. intros ->. apply Hx. left. reflexivity. }
+    split.
+    { intros x. destruct (R4 x) as [A B]. destruct (Hv1 x) as [C D]. split; congruence. }
+    intros n df Hin Hcons.
+    assert (Htail : forall df', In (n, df') l -> df' = df) by (intros df' H'; apply Hcons; right; exact H').
+    destruct (in_dec N.eq_dec n (map fst l)) as [Hnl|Hnl].
+    + (* n is handled again later: the later application decides *)
+      apply in_map_iff in Hnl. destruct Hnl as ([n' df''] & E & Hin'). simpl in E. subst n'.
+      assert (df'' = df) by (apply Htail; exact Hin'). subst df''.
+      specialize (R5 n df Hin' Htail).
+      destruct (forallb (exists_ fs) (file_dep df)) eqn:Eall; [exact R5|].
+      rewrite R5. destruct (N.eq_dec n m) as [->|Hne]; [|apply Hfr1; auto].
+      assert (dfm = df) by (apply Hcons; left; reflexivity). subst dfm.
+      rewrite Eall in Hcase. destruct Hcase as [_ ->]. reflexivity.
+    + destruct Hin as [Heq|Hin]; [|exfalso; apply Hnl; apply (in_map fst) in Hin; exact Hin].
+      inversion Heq; subst m dfm.
+      assert (Hn : co_db out n = d1 n) by (apply R3; exact Hnl).
+      destruct (forallb (exists_ fs) (file_dep df)).
+      * destruct Hcase as (_ & _ & _ & Hs). unfold settled_after.
+        destruct (uptodate_transfer c fs d1 (co_db out) n df Hn R4) as (U1 & U2 & U3).
+        rewrite U1, U2, U3. exact Hs.
+      * destruct Hcase as [_ ->]. exact Hn.
+Qed.
+
+(* ---- the selection of reset-dep ---- *)
+Lemma lookup_nodup tb n c : NoDup (names tb) -> In (n, c) tb -> lookup tb n = Some c.
+Proof.
+  induction tb as [|[k c0] r IH]; intros Hn Hi; [destruct Hi|].
+  simpl in Hn. inversion Hn as [|? ? Hk Hr]; subst. simpl. destruct Hi as [E|Hi].
+  - inversion E; subst.
+    assert (lookup r n = None) by (apply lookup_none; exact Hk). rewrite H, N.eqb_refl. reflexivity.
+  - rewrite (IH Hr Hi). reflexivity.
+Qed.
+
+Lemma with_defs_spec tb l : forall r,
+  with_defs tb l = Some r ->
+  map fst r = l /\ forall n df, In (n, df) r -> exists ct, lookup tb n = Some ct /\ df = c_def ct.
+Proof.
+  induction l as [|n l IH]; simpl; intros r H.
+  - inversion H; subst. split; auto. intros n df [].
+  - destruct (lookup tb n) as [c0|] eqn:En; [|discriminate].
+    destruct (with_defs tb l) as [l'|]; [|discriminate]. inversion H; subst.
+    destruct (IH l' eq_refl) as [A B]. split; [simpl; rewrite A; reflexivity|].
+    intros m df [E|Hi]; [inversion E; subst; eauto | apply B; exact Hi].
+Qed.
+
+Lemma with_defs_total tb l : (forall n, In n l -> known tb n) -> exists r, with_defs tb l = Some r.
+Proof.
+  induction l as [|n l IH]; simpl; intros H; [eauto|].
+  assert (Hn : known tb n) by (apply H; auto). unfold known in Hn.
+  destruct (lookup tb n); [|contradiction]. destruct IH as [r ->]; [intros; apply H; auto|]. eauto.
+Qed.
+
+Lemma self_or_sub_known tb n x : known tb n -> self_or_sub tb n x -> known tb x.
+Proof.
+  intros Hn [->|(c0 & _ & _ & (cx & Hx & _))]; auto. unfold known. congruence.
+Qed.
+
+(* the tasks reset-dep works on: every task, or the named ones with their sub-tasks *)
+Definition resetdep_selected (tb : table) (args : list name) (x : name) : Prop :=
+  match args with [] => In x (names tb) | _ => exists n, In n args /\ self_or_sub tb n x end.
+
+Lemma resetdep_tasks_spec tb args l :
+  NoDup (names tb) -> resetdep_tasks tb args = Some l ->
+  (forall x, In x (map fst l) <-> resetdep_selected tb args x) /\
+  (forall n df, In (n, df) l -> exists ct, lookup tb n = Some ct /\ df = c_def ct).
+Proof.
+  intros Hnd. unfold resetdep_tasks, resetdep_selected. destruct args as [|a args].
+  - intros H. inversion H; subst. split.
+    + intros x. rewrite map_map. simpl. reflexivity.
+    + intros n df Hi. apply in_map_iff in Hi. destruct Hi as ([k c0] & E & Hi). simpl in E. inversion E; subst.
+      exists c0. split; auto. apply lookup_nodup; auto.
+  - destruct (named_with_subs tb (a :: args)) as [r|] eqn:E; [|discriminate]. intros H.
+    destruct (with_defs_spec _ _ _ H) as [A B]. split; [|exact B].
+    intros x. rewrite A. apply (named_with_subs_spec _ _ _ E).
+Qed.
+
+Lemma resetdep_cmd_spec c fs sn tb args d :
+  NoDup (names tb) -> db_ok fs sn d ->
+  let out := resetdep_cmd md5 v c fs tb args d in
+  match co_res out with
+  | COk => db_ok fs sn (co_db out) /\
+           (forall x, ~ resetdep_selected tb args x -> co_db out x = d x) /\
+           (forall x, get_values (co_db out) x = get_values d x /\ get_result (co_db out) x = get_result d x) /\
+           (forall n ct, resetdep_selected tb args n -> lookup tb n = Some ct ->
+              if forallb (exists_ fs) (file_dep (c_def ct))
+              then settled_after c fs (co_db out) n (c_def ct)
+              else co_db out n = d n)
+  | CCrash | CFuel => False
+  | _ => co_db out = d
+  end.
+Proof.
+  intros Hnd Hok. cbv zeta. unfold resetdep_cmd.
+  destruct (match args with [] => None | _ :: _ => first_unknown tb args end); [reflexivity|].
+  destruct (resetdep_tasks tb args) as [l|] eqn:El; [|reflexivity].
+  destruct (resetdep_tasks_spec tb args l Hnd El) as [S1 S2].
+  destruct (resetdep_loop_spec c fs sn l d [] Hok) as (R1 & R2 & R3 & R4 & R5). cbv zeta in *.
+  rewrite R1. split; [exact R2|]. split; [|split; [exact R4|]].
+  - intros x Hx. apply R3. intros H. apply Hx. apply S1. exact H.
+  - intros n ct Hs Hl. apply S1 in Hs. apply in_map_iff in Hs. destruct Hs as ([n' df] & E & Hin). simpl in E. subst n'.
+    destruct (S2 n df Hin) as (ct' & Hl' & ->). rewrite Hl in Hl'. inversion Hl'; subst ct'.
+    apply (R5 n (c_def ct) Hin).
+    intros df' Hin'. destruct (S2 n df' Hin') as (ct' & Hl'' & ->). rewrite Hl in Hl''. inversion Hl''; subst. reflexivity.
+Qed.
+
+Lemma resetdep_outcome c fs tb args d :
+  let out := resetdep_cmd md5 v c fs tb args d in
+  match (match args with [] => None | _ => first_unknown tb args end) with
+  | Some bad => co_res out = CInvalid bad
+  | None => closed tb -> co_res out <> CKeyError
+  end.
+Proof.
+  cbv zeta. unfold resetdep_cmd.
+  destruct (match args with [] => None | _ :: _ => first_unknown tb args end) eqn:Ec; [reflexivity|].
+  intros Hc. unfold resetdep_tasks. destruct args as [|a args].
+  - destruct (resetdep_loop md5 v c fs (map (fun e => (fst e, c_def (snd e))) tb) d []) as [r lg db'] eqn:E.
+    pose proof (f_equal co_res E) as E'. simpl in E'. clear E. simpl.
+    revert E'. generalize (@nil (name * Z)) as lg0. generalize d as d0.
+    induction (map (fun e : name * ctask => (fst e, c_def (snd e))) tb) as [|[m dfm] l IH]; intros d0 lg0 E'; simpl in E'.
+    + subst r. discriminate.
+    + destruct (reset_dep md5 v c fs d0 m dfm) as [d1 code]. destruct (code =? 98).
+      * simpl in E'. subst r. discriminate.
+      * apply (IH _ _ E').
+  - assert (Hk : forall n, In n (a :: args) -> known tb n) by (apply first_unknown_none; exact Ec).
+    destruct (named_with_subs_total tb (a :: args) Hc Hk) as [r Er]. rewrite Er.
+    destruct (named_with_subs_spec _ _ _ Er) as [Sp _].
+    destruct (with_defs_total tb r) as [l ->].
+    { intros x Hx. apply Sp in Hx. destruct Hx as (n & Hn & Hs). apply (self_or_sub_known tb n); auto. }
+    generalize (@nil (name * Z)) as lg0. generalize d as d0.
+    induction l as [|[m dfm] l IH]; intros d0 lg0; simpl.
+    + discriminate.
+    + destruct (reset_dep md5 v c fs d0 m dfm) as [d1 code]. destruct (code =? 98); [simpl; discriminate | apply IH].
+Qed.
+
+End ResetDep.
+
+(* ---------- the next run: what Runner.select_task does with an ignored task ---------- *)
+Section NextRun.
+Variable tasks : name -> option Dispatch.task.
+Variable cont always : bool.
+
+Lemma is_nil_false_iff {A} (l : list A) : is_nil l = false <-> l <> [].
+Proof. destruct l; simpl; split; congruence. Qed.
+
+(* first selection (status None): marked in the DB, or an ignored dependency was seen *)
+Lemma select_ignored_first r k :
+  Dispatch.n_st (Dispatch.node_of tasks (Runner.r_d r) k) = Dispatch.SNone ->
+  Dispatch.t_dbignore (Dispatch.get_task tasks k) = true \/ Dispatch.n_ign (Dispatch.node_of tasks (Runner.r_d r) k) <> [] ->
+  exists r', Runner.select_task tasks cont always r k = (false, r') /\
+             Runner.r_tr r' = Runner.r_tr r ++ [Runner.EGetStatus k; Runner.ESkipIgnore k] /\
+             Dispatch.st_of tasks (Runner.r_d r') k = Dispatch.SIgnore /\
+             Runner.r_td r' = Runner.r_td r.
+Proof.
+  intros Hs Hi. unfold Runner.select_task. rewrite Hs.
+  assert (E : negb (is_nil (Dispatch.n_ign (Dispatch.node_of tasks (Runner.r_d r) k))) || Dispatch.t_dbignore (Dispatch.get_task tasks k) = true).
+  { destruct Hi as [->|Hi]; [apply orb_true_r|]. apply is_nil_false_iff in Hi. rewrite Hi. reflexivity. }
+  cbn [Runner.emit Runner.r_d]. rewrite E. eexists. split; [reflexivity|]. cbn. split; [rewrite <- app_assoc; reflexivity|].
+  split; [|reflexivity]. unfold Dispatch.st_of, Runner.set_status, Dispatch.node_of, Dispatch.set_node. cbn.
+  rewrite upd_same. reflexivity.
+Qed.
+
+(* second selection (after the setup-tasks): one of them was ignored *)
+Lemma select_ignored_second r k :
+  Dispatch.n_st (Dispatch.node_of tasks (Runner.r_d r) k) <> Dispatch.SNone ->
+  Dispatch.n_ign (Dispatch.node_of tasks (Runner.r_d r) k) <> [] ->
+  exists r', Runner.select_task tasks cont always r k = (false, r') /\
+             Runner.r_tr r' = Runner.r_tr r ++ [Runner.ESkipIgnore k] /\
+             Dispatch.st_of tasks (Runner.r_d r') k = Dispatch.SIgnore.
+Proof.
+  intros Hs Hi. unfold Runner.select_task. apply is_nil_false_iff in Hi.
+  destruct (Dispatch.n_st (Dispatch.node_of tasks (Runner.r_d r) k)) eqn:E; try contradiction; rewrite Hi; cbn;
+    (eexists; split; [reflexivity|]; cbn; split; [reflexivity|];
+     unfold Dispatch.st_of, Runner.set_status, Dispatch.node_of, Dispatch.set_node; cbn; rewrite upd_same; reflexivity).
+Qed.
+
+(* how the mark travels: a dependency found (or reported) with status `ignore` is entered in the
+   dependent's ignored_deps -- by _node_add_wait_run when it had finished before, by _update_waiting
+   when it finishes later *)
+Lemma parent_status_ignored nd dep : In dep (Dispatch.n_ign (Dispatch.parent_status nd dep Dispatch.SIgnore)).
+Proof. simpl. apply in_or_app. right. left. reflexivity. Qed.
+
+Lemma add_wait_one_ignored d me x calc :
+  Dispatch.st_of tasks d x = Dispatch.SIgnore ->
+  In x (Dispatch.n_ign (Dispatch.node_of tasks (Dispatch.add_wait_one tasks d me x calc) me)).
+Proof.
+  intros H. unfold Dispatch.add_wait_one. rewrite H. cbn [Dispatch.unfinished].
+  unfold Dispatch.node_of at 1, Dispatch.set_node. cbn. rewrite upd_same.
+  destruct calc; cbn; apply in_or_app; right; left; reflexivity.
+Qed.
+
+Lemma wake_node_ignored nd fin : In fin (Dispatch.n_ign (Dispatch.wake_node tasks nd fin Dispatch.SIgnore)).
+Proof.
+  unfold Dispatch.wake_node. destruct (mem fin (Dispatch.n_wcalc nd)); cbn; apply in_or_app; right; left; reflexivity.
+Qed.
+
+End NextRun.
+
+(* the table of the next run reads the mark from the DB the command left *)
+Lemma run_table_dbignore md5 v c fs d rt n ct :
+  lookup rt n = Some ct ->
+  Dispatch.t_dbignore (Dispatch.get_task (run_table md5 v c fs d rt) n) = status_is_ignore d n.
+Proof. intros H. unfold Dispatch.get_task, run_table. rewrite H. reflexivity. Qed.
+
+Lemma run_table_check md5 v c fs d rt n ct :
+  lookup rt n = Some ct ->
+  Dispatch.t_check (Dispatch.get_task (run_table md5 v c fs d rt) n) =
+  check_of (g_status (get_status md5 v c fs d n (c_def ct) false)).
+Proof. intros H. unfold Dispatch.get_task, run_table. rewrite H. reflexivity. Qed.
+
+(* ---------- a task marked `ignore` in the DB is never started, in any run ---------- *)
+Module IgnRun.
+Import Dispatch Runner DispatchP.
+Open Scope N_scope.
+
+Section S.
+Variable tasks : name -> option task.
+Variable wake_rank : name -> name -> N.
+Variable calc_rank : name -> N.
+Variable continue_ always : bool.
+
+Notation node_of := (node_of tasks).
+Notation st_of := (st_of tasks).
+Notation gen_node := (gen_node tasks).
+Notation add_wait_one := (add_wait_one tasks).
+Notation add_wait_run := (add_wait_run tasks).
+Notation gen_step := (gen_step tasks calc_rank).
+Notation wake_one := (wake_one tasks).
+Notation wake := (wake tasks).
+Notation update_waiting := (update_waiting tasks wake_rank).
+Notation next_from_torun := (next_from_torun tasks).
+Notation disp_run := (disp_run tasks calc_rank).
+Notation disp_send := (disp_send tasks wake_rank calc_rank).
+Notation set_pc := (set_pc tasks).
+Notation set_status := (set_status tasks).
+Notation select_task := (select_task tasks continue_ always).
+Notation serial := (serial tasks wake_rank calc_rank continue_ always).
+
+Definition pco (d : dstate) (z : name) : pc := n_pc (node_of d z).
+(* the generator is past its first `yield this_task` and not in the setup-task part *)
+Definition afterself (p : pc) : bool := match p with PAfterSelf | PAfterSelWait | PDone => true | _ => false end.
+
+Lemma pc_set_node d k nd z : pco (set_node d k nd) z = if N.eqb z k then n_pc nd else pco d z.
+Proof.
+  unfold pco. destruct (N.eqb_spec z k) as [->|Hne].
+  - rewrite node_of_set_same. reflexivity.
+  - rewrite node_of_set_other; auto.
+Qed.
+Lemma pc_set_node_same d k nd z : n_pc nd = pco d k -> pco (set_node d k nd) z = pco d z.
+Proof. intros H. rewrite pc_set_node. destruct (N.eqb_spec z k); subst; auto. Qed.
+Lemma pc_set_node_other d k nd z : z <> k -> pco (set_node d k nd) z = pco d z.
+Proof. intros H. rewrite pc_set_node. apply N.eqb_neq in H. rewrite H. reflexivity. Qed.
+
+Lemma parent_status_pc nd dep s : n_pc (parent_status nd dep s) = n_pc nd.
+Proof. destruct s; reflexivity. Qed.
+Lemma process_calc_pc nd c s : n_pc (process_calc tasks nd c s) = n_pc nd.
+Proof. unfold Dispatch.process_calc. destruct (calc_values_visible s); reflexivity. Qed.
+
+Lemma gen_node_pc d pa k z : pco (snd (gen_node d pa k)) z = pco d z.
+Proof.
+  unfold Dispatch.gen_node. destruct (d_nodes d k) eqn:E.
+  - destruct pa as [a|]; [destruct (mem k a)|]; reflexivity.
+  - simpl. rewrite pc_set_node. destruct (N.eqb_spec z k) as [->|]; auto.
+    unfold pco, Dispatch.node_of. rewrite E. reflexivity.
+Qed.
+
+Lemma add_wait_one_pc d me y calc z : pco (add_wait_one d me y calc) z = pco d z.
+Proof.
+  unfold Dispatch.add_wait_one. destruct (unfinished (st_of d y)).
+  - set (d1 := set_node d y _).
+    assert (H1 : forall w, pco d1 w = pco d w) by (intro w; apply pc_set_node_same; reflexivity).
+    rewrite pc_set_node_same; [apply H1|]. destruct calc; reflexivity.
+  - apply pc_set_node_same. destruct calc; rewrite ?process_calc_pc, parent_status_pc; reflexivity.
+Qed.
+
+Lemma add_wait_run_pc l : forall d me calc z, pco (add_wait_run d me l calc) z = pco d z.
+Proof.
+  induction l as [|y r IH]; intros d me calc z; cbn [Dispatch.add_wait_run]; auto.
+  rewrite IH. apply add_wait_one_pc.
+Qed.
+
+Lemma set_pc_other d me p z : z <> me -> pco (set_pc d me p) z = pco d z.
+Proof. intros H. unfold Dispatch.set_pc. apply pc_set_node_other. exact H. Qed.
+Lemma set_pc_self d me p : pco (set_pc d me p) me = p.
+Proof. unfold Dispatch.set_pc, pco. rewrite node_of_set_same. reflexivity. Qed.
+
+(* resuming one generator leaves the program counter of every other node alone *)
+Lemma gen_step_pc_other fuel : forall d me z, z <> me -> pco (snd (gen_step fuel d me)) z = pco d z.
+Proof.
+  induction fuel as [|fuel IH]; intros d me z Hz; cbn [Dispatch.gen_step]; auto.
+  destruct (n_pc (node_of d me)) as [|rest calcs tks|rest tks| | | |rest| |] eqn:Epc.
+  - rewrite IH by auto. apply pc_set_node_other. exact Hz.
+  - destruct rest as [|c r].
+    + rewrite IH, set_pc_other, add_wait_run_pc by auto. reflexivity.
+    + destruct (gen_node d (Some (n_anc (node_of d me))) c) as [g d1] eqn:Eg.
+      assert (Hd1 : forall y, pco d1 y = pco d y)
+        by (intro y; change d1 with (snd (g, d1)); rewrite <- Eg; apply gen_node_pc).
+      destruct g; simpl; auto.
+      * rewrite set_pc_other; auto.
+      * rewrite IH, set_pc_other; auto.
+  - destruct rest as [|c r].
+    + destruct (negb (is_nil (n_pend_calc _)) || negb (is_nil (n_pend_task _))).
+      * rewrite IH, set_pc_other, add_wait_run_pc by auto. reflexivity.
+      * destruct (negb (is_nil (n_wrun _)) || negb (is_nil (n_wcalc _))); simpl.
+        -- rewrite set_pc_other, add_wait_run_pc by auto. reflexivity.
+        -- rewrite IH, set_pc_other, add_wait_run_pc by auto. reflexivity.
+    + destruct (gen_node d (Some (n_anc (node_of d me))) c) as [g d1] eqn:Eg.
+      assert (Hd1 : forall y, pco d1 y = pco d y)
+        by (intro y; change d1 with (snd (g, d1)); rewrite <- Eg; apply gen_node_pc).
+      destruct g; simpl; auto.
+      * rewrite set_pc_other; auto.
+      * rewrite IH, set_pc_other; auto.
+  - simpl. apply set_pc_other. exact Hz.
+  - destruct (is_nil (t_setup (get_task tasks me))); simpl; [apply set_pc_other; exact Hz|].
+    destruct (n_st (node_of d me)) eqn:Est; simpl;
+      try (rewrite IH by auto; apply set_pc_other; exact Hz).
+    apply pc_set_node_other. exact Hz.
+  - destruct (n_st (node_of d me)); simpl; try (apply set_pc_other; exact Hz).
+    rewrite IH by auto. apply set_pc_other. exact Hz.
+  - destruct rest as [|c r].
+    + destruct (is_nil (n_wrun _)); simpl; rewrite set_pc_other, add_wait_run_pc by auto; reflexivity.
+    + destruct (gen_node d (Some (n_anc (node_of d me))) c) as [g d1] eqn:Eg.
+      assert (Hd1 : forall y, pco d1 y = pco d y)
+        by (intro y; change d1 with (snd (g, d1)); rewrite <- Eg; apply gen_node_pc).
+      destruct g; simpl; auto.
+      * rewrite set_pc_other; auto.
+      * rewrite IH, set_pc_other; auto.
+  - simpl. apply set_pc_other. exact Hz.
+  - reflexivity.
+Qed.
+
+(* a generator that is past `yield this_task`, of a task whose status is not `run`, never yields the
+   task again and stays there *)
+Lemma gen_step_afterself fuel : forall d me y d',
+  afterself (pco d me) = true -> st_of d me <> SRun ->
+  gen_step fuel d me = (y, d') -> y <> YSelf /\ afterself (pco d' me) = true.
+Proof.
+  induction fuel as [|fuel IH]; intros d me y d' Ha Hs Hg; cbn [Dispatch.gen_step] in Hg.
+  { inversion Hg; subst. split; [discriminate | exact Ha]. }
+  unfold pco in Ha.
+  destruct (n_pc (node_of d me)) eqn:Epc; try discriminate Ha.
+  - destruct (is_nil (t_setup (get_task tasks me))).
+    + inversion Hg; subst. split; [discriminate|]. rewrite set_pc_self. reflexivity.
+    + destruct (n_st (node_of d me)) eqn:Est;
+        try (apply (IH _ _ _ _) in Hg; [exact Hg | rewrite set_pc_self; reflexivity | rewrite set_pc_st; exact Hs]).
+      inversion Hg; subst. split; [discriminate|]. unfold pco. rewrite node_of_set_same. reflexivity.
+  - assert (Hne : n_st (node_of d me) <> SRun) by exact Hs.
+    destruct (n_st (node_of d me)) eqn:Est; try contradiction;
+      (inversion Hg; subst; split; [discriminate|]; rewrite set_pc_self; reflexivity).
+  - inversion Hg; subst. split; [discriminate|]. unfold pco. rewrite Epc. reflexivity.
+Qed.
+
+(* whenever a generator yields its task, it is past `yield this_task` *)
+Lemma gen_step_yself fuel : forall d me d', gen_step fuel d me = (YSelf, d') -> afterself (pco d' me) = true.
+Proof.
+  induction fuel as [|fuel IH]; intros d me d' Hg; cbn [Dispatch.gen_step] in Hg; [discriminate|].
+  destruct (n_pc (node_of d me)) as [|rest calcs tks|rest tks| | | |rest| |] eqn:Epc.
+  - apply IH in Hg. exact Hg.
+  - destruct rest as [|c r].
+    + apply IH in Hg. exact Hg.
+    + destruct (gen_node d (Some (n_anc (node_of d me))) c) as [g d1]. destruct g; try discriminate.
+      apply IH in Hg. exact Hg.
+  - destruct rest as [|c r].
+    + destruct (negb (is_nil (n_pend_calc _)) || negb (is_nil (n_pend_task _))); [apply IH in Hg; exact Hg|].
+      destruct (negb (is_nil (n_wrun _)) || negb (is_nil (n_wcalc _))); [discriminate|]. apply IH in Hg. exact Hg.
+    + destruct (gen_node d (Some (n_anc (node_of d me))) c) as [g d1]. destruct g; try discriminate.
+      apply IH in Hg. exact Hg.
+  - inversion Hg; subst. rewrite set_pc_self. reflexivity.
+  - destruct (is_nil (t_setup (get_task tasks me))); [discriminate|].
+    destruct (n_st (node_of d me)); try discriminate; apply IH in Hg; exact Hg.
+  - destruct (n_st (node_of d me)); try discriminate. apply IH in Hg. exact Hg.
+  - destruct rest as [|c r].
+    + destruct (is_nil (n_wrun _)); [|discriminate]. inversion Hg; subst. rewrite set_pc_self. reflexivity.
+    + destruct (gen_node d (Some (n_anc (node_of d me))) c) as [g d1]. destruct g; try discriminate.
+      apply IH in Hg. exact Hg.
+  - inversion Hg; subst. rewrite set_pc_self. reflexivity.
+  - discriminate.
+Qed.
+
+(* _update_waiting and the tasks_to_run part change no program counter *)
+Lemma wake_node_pc nd fin fs : n_pc (wake_node tasks nd fin fs) = n_pc nd.
+Proof.
+  unfold wake_node. destruct (mem fin (n_wcalc nd)); rewrite ?process_calc_pc; simpl; apply parent_status_pc.
+Qed.
+Lemma wake_one_pc d fin fs w z : pco (wake_one d fin fs w) z = pco d z.
+Proof.
+  unfold Dispatch.wake_one. destruct (_ && _); unfold pco; cbn [d_nodes set_waiting set_ready];
+    apply pc_set_node_same; apply wake_node_pc.
+Qed.
+Lemma wake_pc l : forall d fin fs z, pco (wake d fin fs l) z = pco d z.
+Proof.
+  induction l as [|w r IH]; intros; cbn [Dispatch.wake]; auto. rewrite IH. apply wake_one_pc.
+Qed.
+Lemma update_waiting_pc d p z : pco (update_waiting d p) z = pco d z.
+Proof.
+  destruct p as [p|]; cbn [Dispatch.update_waiting]; auto.
+  set (d1 := if n_wsel (node_of d p) then _ else d).
+  assert (H1 : forall y, pco d1 y = pco d y).
+  { intro y. unfold d1. destruct (n_wsel (node_of d p)); auto.
+    change (pco (set_node d p (nd_wsel (node_of d p) false)) y = pco d y). apply pc_set_node_same. reflexivity. }
+  destruct (n_st (node_of d p)); rewrite ?wake_pc; apply H1.
+Qed.
+Lemma pc_set_torun d w z : pco (set_torun d w) z = pco d z. Proof. reflexivity. Qed.
+Lemma next_from_torun_pc l : forall d z, pco (snd (next_from_torun d l)) z = pco d z.
+Proof.
+  induction l as [|y r IH]; intros d z; cbn [Dispatch.next_from_torun]; auto.
+  destruct (gen_node d None y) as [g d1] eqn:Eg.
+  assert (Hd1 : forall w, pco d1 w = pco d w)
+    by (intro w; change d1 with (snd (g, d1)); rewrite <- Eg; apply gen_node_pc).
+  destruct g; simpl; rewrite ?IH, ?pc_set_torun; auto.
+Qed.
+
+(* the dispatcher, from one yield to the next, about one task T *)
+Lemma disp_run_T T fuel : forall d y d',
+  disp_run fuel d = (y, d') ->
+  (y = DTask T -> afterself (pco d' T) = true) /\
+  (afterself (pco d T) = true -> st_of d T <> SRun -> afterself (pco d' T) = true /\ y <> DTask T).
+Proof.
+  induction fuel as [|fuel IH]; intros d y d' H; cbn [Dispatch.disp_run] in H.
+  { inversion H; subst. split; [discriminate|]. intros Ha _. split; [exact Ha | discriminate]. }
+  destruct (d_cur d) as [me|] eqn:Ecur.
+  - destruct (gen_step (S (S fuel)) d me) as [gy d1] eqn:Eg.
+    assert (Hst : forall z, st_of d1 z = st_of d z)
+      by (intro z; change d1 with (snd (gy, d1)); rewrite <- Eg; apply gen_step_st).
+    assert (Hother : T <> me -> pco d1 T = pco d T)
+      by (intro Hne; change d1 with (snd (gy, d1)); rewrite <- Eg; apply gen_step_pc_other; exact Hne).
+    assert (Hself : T = me -> afterself (pco d T) = true -> st_of d T <> SRun -> gy <> YSelf /\ afterself (pco d1 T) = true).
+    { intros -> Ha Hs. eapply gen_step_afterself; eauto. }
+    assert (Hkeep : afterself (pco d T) = true -> st_of d T <> SRun -> afterself (pco d1 T) = true).
+    { intros Ha Hs. destruct (N.eq_dec T me) as [E|E]; [apply Hself; auto | rewrite Hother; auto]. }
+    destruct gy.
+    + (* YNode *) destruct (IH _ _ _ H) as [A B]. split; [exact A|]. intros Ha Hs. assert (Hs1 : st_of d1 T <> SRun) by (rewrite Hst; exact Hs). apply B; [exact (Hkeep Ha Hs) | exact Hs1].
+    + (* YWait *) destruct (IH _ _ _ H) as [A B]. split; [exact A|]. intros Ha Hs. assert (Hs1 : st_of d1 T <> SRun) by (rewrite Hst; exact Hs). apply B; [exact (Hkeep Ha Hs) | exact Hs1].
+    + (* YSelf *) inversion H; subst. split.
+      * intros E. inversion E; subst. eapply gen_step_yself; eauto.
+      * intros Ha Hs. split; [apply Hkeep; auto|]. intros E. inversion E; subst.
+        destruct (Hself eq_refl Ha Hs) as [X _]. apply X. reflexivity.
+    + (* YEnd *) destruct (IH _ _ _ H) as [A B]. split; [exact A|]. intros Ha Hs. assert (Hs1 : st_of d1 T <> SRun) by (rewrite Hst; exact Hs). apply B; [exact (Hkeep Ha Hs) | exact Hs1].
+    + (* YCycle *) inversion H; subst. split; [discriminate|]. intros Ha Hs. split; [apply Hkeep; auto | discriminate].
+    + (* YFuel *) inversion H; subst. split; [discriminate|]. intros Ha Hs. split; [apply Hkeep; auto | discriminate].
+  - destruct (d_ready d) as [|x r].
+    + destruct (next_from_torun d (d_torun d)) as [o d1] eqn:En.
+      assert (Hpc : forall z, pco d1 z = pco d z)
+        by (intro z; change d1 with (snd (o, d1)); rewrite <- En; apply next_from_torun_pc).
+      assert (Hst : forall z, st_of d1 z = st_of d z)
+        by (intro z; change d1 with (snd (o, d1)); rewrite <- En; apply next_from_torun_st).
+      destruct o as [x|].
+      * destruct (IH _ _ _ H) as [A B]. split; [exact A|]. intros Ha Hs. apply B; [change (afterself (pco d1 T) = true); rewrite Hpc; exact Ha | change (st_of d1 T <> SRun); rewrite Hst; exact Hs].
+      * destruct (is_nil (d_waiting d1)); inversion H; subst; (split; [discriminate|]); intros Ha Hs; (split; [rewrite Hpc; exact Ha | discriminate]).
+    + destruct (IH _ _ _ H) as [A B]. split; [exact A|]. intros Ha Hs. apply B; assumption.
+Qed.
+
+Lemma disp_send_T T fuel d p y d' :
+  disp_send fuel d p = (y, d') ->
+  (forall z, st_of d' z = st_of d z) /\
+  (y = DTask T -> afterself (pco d' T) = true) /\
+  (afterself (pco d T) = true -> st_of d T <> SRun -> afterself (pco d' T) = true /\ y <> DTask T).
+Proof.
+  intros H. split.
+  - intro z. change d' with (snd (y, d')). rewrite <- H. apply disp_send_st.
+  - unfold Dispatch.disp_send in H. destruct (disp_run_T T _ _ _ _ H) as [A B]. split; [exact A|].
+    intros Ha Hs. apply B; [rewrite update_waiting_pc; exact Ha | rewrite update_waiting_st; exact Hs].
+Qed.
+
+(* ---- the runner ---- *)
+Definition no_exec (k : name) (tr : list event) : Prop := ~ In (EExecute k) tr.
+Lemma no_exec_app k a b : no_exec k a -> no_exec k b -> no_exec k (a ++ b).
+Proof. unfold no_exec. intros A B H. apply in_app_or in H. tauto. Qed.
+
+Lemma set_status_pco d k s z : pco (set_status d k s) z = pco d z.
+Proof. unfold Runner.set_status. apply pc_set_node_same. reflexivity. Qed.
+Lemma set_status_sto d k s z : st_of (set_status d k s) z = if N.eqb z k then s else st_of d z.
+Proof. unfold Runner.set_status. apply st_set_node. Qed.
+
+(* what select_task / process_result may do: append events that start nothing, and change at most
+   the status of the task they were given *)
+Definition touches (k : name) (r r1 : rstate) : Prop :=
+  (forall z, pco (r_d r1) z = pco (r_d r) z) /\
+  (forall z, z <> k -> st_of (r_d r1) z = st_of (r_d r) z) /\
+  exists evs, r_tr r1 = r_tr r ++ evs /\ forall x, ~ In (EExecute x) evs.
+
+Lemma touches_refl k r : touches k r r.
+Proof. split; [auto|]. split; [auto|]. exists []. split; [rewrite app_nil_r; reflexivity | intros x []]. Qed.
+
+Lemma touches_status k r s evs :
+  (forall x, ~ In (EExecute x) evs) ->
+  forall r1, r_d r1 = set_status (r_d r) k s -> r_tr r1 = r_tr r ++ evs -> touches k r r1.
+Proof.
+  intros He r1 Hd Ht. split; [intro z; rewrite Hd; apply set_status_pco|].
+  split; [intros z Hz; rewrite Hd, set_status_sto; apply N.eqb_neq in Hz; rewrite Hz; reflexivity|].
+  exists evs. auto.
+Qed.
+
+Lemma handle_error_touches st r k kind : touches k r (handle_error_gen tasks continue_ st r k kind).
+Proof.
+  apply (touches_status k r st [ERemove k; EFailure k kind]); try reflexivity.
+  intros x [H|[H|[]]]; discriminate.
+Qed.
+
+Lemma touches_trans k r r1 r2 : touches k r r1 -> touches k r1 r2 -> touches k r r2.
+Proof.
+  intros (A1 & B1 & e1 & C1 & D1) (A2 & B2 & e2 & C2 & D2).
+  split; [intro z; rewrite A2; apply A1|]. split; [intros z Hz; rewrite B2, B1; auto|].
+  exists (e1 ++ e2). split; [rewrite C2, C1, app_assoc; reflexivity|].
+  intros x H. apply in_app_or in H. destruct H; [eapply D1 | eapply D2]; eauto.
+Qed.
+
+Lemma touches_emit k r0 evs : (forall x, ~ In (EExecute x) evs) -> touches k r0 (emit r0 evs).
+Proof. intros H. split; [auto|]. split; [auto|]. exists evs. split; [reflexivity | exact H]. Qed.
+
+Lemma get_args_touches r k b r1 : get_args tasks continue_ r k = (b, r1) -> touches k r r1.
+Proof.
+  unfold Runner.get_args. destruct (t_argerr (get_task tasks k)); intros H; inversion H; subst.
+  - apply handle_error_touches.
+  - apply touches_refl.
+Qed.
+
+Lemma select_task_touches r k b r1 : select_task r k = (b, r1) -> touches k r r1.
+Proof.
+  unfold Runner.select_task.
+  assert (E0 : touches k r (emit r [EGetStatus k])).
+  { apply touches_emit. intros x [H|[]]. discriminate. }
+  assert (SK : forall r0 s ev, (forall x, ev <> EExecute x) ->
+               touches k r0 (emit (with_d r0 (set_status (r_d r0) k s)) [ev])).
+  { intros r0 s ev Hev. apply (touches_status k r0 s [ev]); try reflexivity. intros x [H|[]]. apply (Hev x H). }
+  assert (ST : forall r0 s, touches k r0 (with_d r0 (set_status (r_d r0) k s))).
+  { intros r0 s. apply (touches_status k r0 s []); try reflexivity; [intros x []|]. simpl. rewrite app_nil_r. reflexivity. }
+  destruct (n_st (node_of (r_d r) k)).
+  - cbv zeta.
+    destruct (negb (is_nil (n_ign (node_of (r_d r) k))) || t_dbignore (get_task tasks k)).
+    { intros H; inversion H; subst. eapply touches_trans; [exact E0|]. apply (SK (emit r [EGetStatus k])). intros x; discriminate. }
+    destruct (negb (is_nil (n_bad (node_of (r_d r) k)))).
+    { intros H; inversion H; subst. eapply touches_trans; [exact E0|]. apply handle_error_touches. }
+    destruct (t_check (get_task tasks k)).
+    + destruct always; cbv zeta.
+      * destruct (is_nil (t_setup (get_task tasks k))).
+        -- intros H. eapply touches_trans; [exact E0|]. eapply touches_trans; [apply (ST (emit r [EGetStatus k]))|]. eapply get_args_touches; exact H.
+        -- intros H; inversion H; subst. eapply touches_trans; [exact E0|]. apply (ST (emit r [EGetStatus k])).
+      * destruct (is_nil (t_setup (get_task tasks k))).
+        -- intros H. eapply touches_trans; [exact E0|]. eapply touches_trans; [apply (ST (emit r [EGetStatus k]))|]. eapply get_args_touches; exact H.
+        -- intros H; inversion H; subst. eapply touches_trans; [exact E0|]. apply (ST (emit r [EGetStatus k])).
+    + destruct always; cbv zeta.
+      * destruct (is_nil (t_setup (get_task tasks k))).
+        -- intros H. eapply touches_trans; [exact E0|]. eapply touches_trans; [apply (ST (emit r [EGetStatus k]))|]. eapply get_args_touches; exact H.
+        -- intros H; inversion H; subst. eapply touches_trans; [exact E0|]. apply (ST (emit r [EGetStatus k])).
+      * intros H; inversion H; subst. eapply touches_trans; [exact E0|].
+        eapply touches_trans; [apply (ST (emit r [EGetStatus k]))|].
+        apply touches_emit. intros x [X|[]]. discriminate.
+    + intros H; inversion H; subst. eapply touches_trans; [exact E0|]. apply handle_error_touches.
+  - destruct (negb (is_nil (n_ign (node_of (r_d r) k)))); [intros H; inversion H; subst; apply (SK r); intros x; discriminate|].
+    destruct (negb (is_nil (n_bad (node_of (r_d r) k)))); [intros H; inversion H; subst; apply handle_error_touches|].
+    apply get_args_touches.
+  - destruct (negb (is_nil (n_ign (node_of (r_d r) k)))); [intros H; inversion H; subst; apply (SK r); intros x; discriminate|].
+    destruct (negb (is_nil (n_bad (node_of (r_d r) k)))); [intros H; inversion H; subst; apply handle_error_touches|].
+    apply get_args_touches.
+  - destruct (negb (is_nil (n_ign (node_of (r_d r) k)))); [intros H; inversion H; subst; apply (SK r); intros x; discriminate|].
+    destruct (negb (is_nil (n_bad (node_of (r_d r) k)))); [intros H; inversion H; subst; apply handle_error_touches|].
+    apply get_args_touches.
+  - destruct (negb (is_nil (n_ign (node_of (r_d r) k)))); [intros H; inversion H; subst; apply (SK r); intros x; discriminate|].
+    destruct (negb (is_nil (n_bad (node_of (r_d r) k)))); [intros H; inversion H; subst; apply handle_error_touches|].
+    apply get_args_touches.
+  - destruct (negb (is_nil (n_ign (node_of (r_d r) k)))); [intros H; inversion H; subst; apply (SK r); intros x; discriminate|].
+    destruct (negb (is_nil (n_bad (node_of (r_d r) k)))); [intros H; inversion H; subst; apply handle_error_touches|].
+    apply get_args_touches.
+  - destruct (negb (is_nil (n_ign (node_of (r_d r) k)))); [intros H; inversion H; subst; apply (SK r); intros x; discriminate|].
+    destruct (negb (is_nil (n_bad (node_of (r_d r) k)))); [intros H; inversion H; subst; apply handle_error_touches|].
+    apply get_args_touches.
+Qed.
+
+Lemma process_result_touches r k : touches k r (process_result tasks continue_ r k).
+Proof.
+  unfold Runner.process_result. destruct (t_outcome (get_task tasks k)); try apply handle_error_touches; try apply touches_refl.
+  apply (touches_status k r SSuccess [ESave k; ESuccess k]); try reflexivity. intros x [H|[H|[]]]; discriminate.
+Qed.
+
+(* the invariant about the marked task T *)
+Definition TInv (T : name) (r : rstate) : Prop :=
+  (st_of (r_d r) T = SNone \/ st_of (r_d r) T = SIgnore) /\
+  (st_of (r_d r) T = SIgnore -> afterself (pco (r_d r) T) = true) /\
+  no_exec T (r_tr r).
+
+Lemma TInv_touches T k r r1 : T <> k -> TInv T r -> touches k r r1 -> TInv T r1.
+Proof.
+  intros Hne (A & B & C) (P & S & evs & E & N). unfold TInv. rewrite S, P by auto.
+  split; [exact A|]. split; [exact B|]. rewrite E. apply no_exec_app; [exact C | apply N].
+Qed.
+
+Lemma finish_no_exec T r : no_exec T (r_tr r) -> no_exec T (r_tr (finish r)).
+Proof.
+  intros H. unfold Runner.finish, emit. simpl. apply no_exec_app; [exact H|].
+  intros [X|X]; [discriminate|]. apply in_map_iff in X. destruct X as (x & X & _). discriminate.
+Qed.
+
+Lemma serial_T T (HT : t_dbignore (get_task tasks T) = true) fuel : forall r last,
+  TInv T r -> no_exec T (r_tr (fst (serial fuel r last))).
+Proof.
+  induction fuel as [|fuel IH]; intros r last HI; cbn [Runner.serial].
+  { apply HI. }
+  destruct (r_stop r). { cbn [fst]. apply finish_no_exec. apply HI. }
+  destruct (disp_send (S fuel) (r_d r) last) as [y d] eqn:Ed.
+  destruct (disp_send_T T _ _ _ _ _ Ed) as (Hst & Hy & Hkeep).
+  destruct HI as (A & B & C).
+  assert (HI' : TInv T (with_d r d)).
+  { unfold TInv. cbn [r_d r_tr with_d]. rewrite Hst. split; [exact A|]. split; [|exact C].
+    intros E. apply Hkeep; [apply B; exact E | rewrite E; discriminate]. }
+  destruct y as [k| | |path|].
+  - destruct (select_task (with_d r d) k) as [b r1] eqn:Es.
+    destruct (N.eq_dec T k) as [<-|Hne].
+    + (* the marked task itself: it can only be met with status None *)
+      assert (HsT : st_of d T = SNone).
+      { rewrite Hst. destruct A as [A|A]; [exact A|]. exfalso.
+        destruct (Hkeep (B A)) as [_ X]; [rewrite A; discriminate | apply X; reflexivity]. }
+      unfold Runner.select_task in Es. cbn [r_d with_d] in Es.
+      unfold Dispatch.st_of in HsT. rewrite HsT in Es. cbv zeta in Es. rewrite HT, orb_true_r in Es.
+      inversion Es; subst b r1. apply IH. unfold TInv. cbn [r_d r_tr emit with_d].
+      rewrite set_status_sto, N.eqb_refl. split; [right; reflexivity|]. split.
+      * intros _. rewrite set_status_pco. apply Hy. reflexivity.
+      * repeat apply no_exec_app; try exact C; intros [X|[]]; discriminate.
+    + pose proof (select_task_touches _ _ _ _ Es) as Ht.
+      pose proof (TInv_touches T k _ _ Hne HI' Ht) as H1.
+      destruct b.
+      * assert (H2 : TInv T (start_task tasks r1 k)).
+        { destruct H1 as (A1 & B1 & C1). unfold TInv, Runner.start_task. cbn [r_d r_tr]. split; [exact A1|]. split; [exact B1|].
+          apply no_exec_app; [exact C1|]. intros [X|[]]. inversion X. apply Hne. auto. }
+        destruct (is_interrupt tasks k).
+        -- cbn [fst]. apply finish_no_exec. apply H2.
+        -- apply IH. eapply TInv_touches; [exact Hne | exact H2 | apply process_result_touches].
+      * apply IH. exact H1.
+  - cbn [fst]. apply finish_no_exec. apply HI'.
+  - cbn [fst]. apply finish_no_exec. apply HI'.
+  - cbn [fst]. apply finish_no_exec. apply HI'.
+  - cbn [fst]. apply HI'.
+Qed.
+
+(* no run, whatever the selection, the options, the fuel and the scheduling oracles, starts a task
+   that the DB marks as ignored *)
+Theorem ignored_never_started T fuel sel :
+  t_dbignore (get_task tasks T) = true ->
+  ~ In (EExecute T) (fst (run_serial tasks wake_rank calc_rank continue_ always fuel sel)).
+Proof.
+  intros HT. unfold run_serial.
+  pose proof (serial_T T HT fuel (r_init sel) None) as H.
+  destruct (serial fuel (r_init sel) None) as [r s] eqn:E. cbn [fst] in *.
+  apply no_exec_app.
+  - apply H. unfold TInv. cbn. split; [left; reflexivity|]. split; [discriminate|]. intros [].
+  - destruct s; simpl; intros X; repeat (destruct X as [X|X]; [discriminate|]); destruct X.
+Qed.
+
+End S.
+End IgnRun.
+
+(* ... in particular in the run on the DB a command left *)
+Lemma next_run_never_starts_ignored md5 v wake_rank calc_rank c fs d rt cont always fuel sel T ct :
+  lookup rt T = Some ct -> status_is_ignore d T = true ->
+  ~ In (Runner.EExecute T) (fst (next_run md5 v wake_rank calc_rank c fs d rt cont always fuel sel)).
+Proof.
+  intros Hl Hi. unfold next_run. apply IgnRun.ignored_never_started.
+  rewrite (run_table_dbignore md5 v c fs d rt T ct Hl). exact Hi.
+Qed.
